@@ -24,7 +24,7 @@ pub struct C20;
 
 /// every colour type that has a MockDisplay character set (`ColorMapping`); the first six are
 /// the original menu, the rest were appended so old tapes keep their meaning
-pub const KINDS6: [ColorKind; 12] = [
+pub const KINDS6: [ColorKind; 13] = [
     ColorKind::Binary,
     ColorKind::Gray2,
     ColorKind::Gray4,
@@ -37,7 +37,24 @@ pub const KINDS6: [ColorKind; 12] = [
     ColorKind::Bgr555,
     ColorKind::Bgr565,
     ColorKind::Bgr888,
+    ColorKind::User8,
 ];
+
+/// The character set of the harness-defined colour: what a user of the library may write, with
+/// characters of 1, 2, 3 and 4 bytes in UTF-8 ("every character a single pixel").
+const USER_CHARS: [(char, u32); 7] = [('a', 0), ('\u{e9}', 1), ('\u{2591}', 2), ('\u{2588}', 3), ('\u{1D11E}', 4), ('Z', 5), ('\u{df}', 200)];
+
+impl ColorMapping for crate::dev::Cu8 {
+    fn char_to_color(c: char) -> Self {
+        match USER_CHARS.iter().find(|(ch, _)| *ch == c) {
+            Some((_, v)) => crate::dev::Cu8(*v as u8),
+            None => panic!("Invalid char in pattern: '{}'", c),
+        }
+    }
+    fn color_to_char(color: Self) -> char {
+        USER_CHARS.iter().find(|(_, v)| *v == color.0 as u32).map_or('?', |(ch, _)| *ch)
+    }
+}
 
 /// K R G B Y M C W from the documented channel layout: (red shift, red bits, green .., blue ..)
 fn rgb_alphabet(rs: u32, rb: u32, gs: u32, gb: u32, bs: u32, bb: u32) -> Vec<(char, u32)> {
@@ -83,6 +100,7 @@ pub fn alphabet(kind: ColorKind) -> Vec<(char, u32)> {
         ColorKind::Bgr555 => rgb_alphabet(0, 5, 5, 5, 10, 5),
         ColorKind::Bgr565 => rgb_alphabet(0, 5, 5, 6, 11, 5),
         ColorKind::Bgr888 => rgb_alphabet(0, 8, 8, 8, 16, 8),
+        ColorKind::User8 => USER_CHARS.to_vec(),
     }
 }
 
@@ -997,10 +1015,10 @@ impl Property for C20 {
         FAULTS
     }
     fn lattice_size(&self) -> u32 {
-        12 * 4
+        13 * 4
     }
     fn lattice_desc(&self) -> &'static str {
-        "colour type (12: every type with a ColorMapping) x final (allow_overdraw, allow_out_of_bounds_drawing) setting (4)"
+        "colour type (13: every library type with a ColorMapping + one user-defined with non-ASCII pattern characters) x final (allow_overdraw, allow_out_of_bounds_drawing) setting (4)"
     }
     fn sub_eval_name(&self) -> &'static str {
         "history_steps_checked"
@@ -1147,6 +1165,7 @@ impl Property for C20 {
             ColorKind::Bgr555 => run_typed::<Bgr555>(sc, opts),
             ColorKind::Bgr565 => run_typed::<Bgr565>(sc, opts),
             ColorKind::Bgr888 => run_typed::<Bgr888>(sc, opts),
+            ColorKind::User8 => run_typed::<crate::dev::Cu8>(sc, opts),
             _ => run_typed::<Rgb888>(sc, opts),
         }
     }
